@@ -65,8 +65,9 @@ type decodeRec struct {
 
 type walker struct {
 	in        []byte
-	dd        bool // uefi.DisableDecompression during the parse
-	pol       byte // uefi.Attributes.ErasePolarity when the parse ended
+	snap      map[fuefi.Firmware][]byte // node buffers as they were when Parse returned (nil: read them now)
+	dd        bool                      // uefi.DisableDecompression during the parse
+	pol       byte                      // uefi.Attributes.ErasePolarity when the parse ended
 	bad       map[string]string
 	nodes     int
 	decodes   []decodeRec
@@ -100,9 +101,26 @@ func le(b []byte) uint64 {
 
 var flashSig = []byte{0x5a, 0xa5, 0xf0, 0x0f}
 
+// buf is the node's buffer as it was when Parse returned.
+func (w *walker) buf(n fuefi.Firmware) []byte {
+	if b, ok := w.snap[n]; ok {
+		return b
+	}
+	return n.Buf()
+}
+
+// checkFaithfulAt judges the tree as recorded when Parse returned (parsed.snap).
+func checkFaithfulAt(p parsed, in []byte, dd bool) *walker {
+	return checkFaithfulSnap(p.tree, p.snap, in, dd, p.pol)
+}
+
 // checkFaithful walks the tree and returns the verdicts.
 func checkFaithful(root fuefi.Firmware, in []byte, dd bool, pol byte) *walker {
-	w := &walker{in: in, dd: dd, pol: pol, bad: map[string]string{}}
+	return checkFaithfulSnap(root, nil, in, dd, pol)
+}
+
+func checkFaithfulSnap(root fuefi.Firmware, snap map[fuefi.Firmware][]byte, in []byte, dd bool, pol byte) *walker {
+	w := &walker{in: in, snap: snap, dd: dd, pol: pol, bad: map[string]string{}}
 	switch t := root.(type) {
 	case *fuefi.FlashImage:
 		w.flash(t)
@@ -120,8 +138,8 @@ func checkFaithful(root fuefi.Firmware, in []byte, dd bool, pol byte) *walker {
 func (w *walker) flash(f *fuefi.FlashImage) {
 	w.nodes++
 	in := w.in
-	if !bytes.Equal(f.Buf(), in) {
-		w.fail(oFlash, "flash buffer (%d bytes) differs from the input (%d bytes)", len(f.Buf()), len(in))
+	if !bytes.Equal(w.buf(f), in) {
+		w.fail(oFlash, "flash buffer (%d bytes) differs from the input (%d bytes)", len(w.buf(f)), len(in))
 	}
 	if f.FlashSize != uint64(len(in)) {
 		w.fail(oFlash, "FlashSize %d, input has %d bytes", f.FlashSize, len(in))
@@ -139,7 +157,7 @@ func (w *walker) flash(f *fuefi.FlashImage) {
 			return
 		}
 		fr := r.FlashRegion()
-		buf := r.Buf()
+		buf := w.buf(r)
 		n := uint64(len(buf))
 		if fr == nil {
 			w.fail(oFlash, "region %d has no flash region record", i)
@@ -190,7 +208,7 @@ func (w *walker) flash(f *fuefi.FlashImage) {
 
 func (w *walker) descriptor(d *fuefi.FlashDescriptor, dbuf []byte) {
 	w.nodes++
-	if !bytes.Equal(d.Buf(), dbuf) {
+	if !bytes.Equal(w.buf(d), dbuf) {
 		w.fail(oDesc, "descriptor buffer differs from input[0:4096)")
 	}
 	ms := d.DescriptorMapStart
@@ -246,7 +264,7 @@ func (w *walker) descriptor(d *fuefi.FlashDescriptor, dbuf []byte) {
 
 func (w *walker) me(m *fuefi.MERegion, rbuf []byte) {
 	w.nodes++
-	if !bytes.Equal(m.Buf(), rbuf) {
+	if !bytes.Equal(w.buf(m), rbuf) {
 		w.fail(oME, "ME region buffer differs from the region's bytes")
 	}
 	fp := m.FPT
@@ -279,7 +297,7 @@ func (w *walker) me(m *fuefi.MERegion, rbuf []byte) {
 		w.fail(oME, "partition table [0,%#x) outside the region (%#x)", l, len(rbuf))
 		return
 	}
-	if !bytes.Equal(fp.Buf(), rbuf[:l]) {
+	if !bytes.Equal(w.buf(fp), rbuf[:l]) {
 		w.fail(oME, "partition table buffer differs from region[0:%#x)", l)
 	}
 	if uint64(len(fp.Entries)) != cnt {
@@ -308,8 +326,8 @@ func (w *walker) me(m *fuefi.MERegion, rbuf []byte) {
 
 func (w *walker) bios(b *fuefi.BIOSRegion, rbuf []byte, where string) {
 	w.nodes++
-	if !bytes.Equal(b.Buf(), rbuf) {
-		w.fail(oBios, "%s: BIOS region buffer (%d bytes) differs from the region's bytes (%d)", where, len(b.Buf()), len(rbuf))
+	if !bytes.Equal(w.buf(b), rbuf) {
+		w.fail(oBios, "%s: BIOS region buffer (%d bytes) differs from the region's bytes (%d)", where, len(w.buf(b)), len(rbuf))
 	}
 	if b.Length != uint64(len(rbuf)) {
 		w.fail(oBios, "%s: BIOS region Length %d, region has %d bytes", where, b.Length, len(rbuf))
@@ -320,7 +338,7 @@ func (w *walker) bios(b *fuefi.BIOSRegion, rbuf []byte, where string) {
 		switch t := e.Value.(type) {
 		case *fuefi.BIOSPadding:
 			w.nodes++
-			n := uint64(len(t.Buf()))
+			n := uint64(len(w.buf(t)))
 			if t.Offset != run {
 				w.fail(oBios, "%s: padding %d reports offset %#x, the elements before it end at %#x", where, i, t.Offset, run)
 			}
@@ -331,7 +349,7 @@ func (w *walker) bios(b *fuefi.BIOSRegion, rbuf []byte, where string) {
 				w.fail(oBios, "%s: padding %d [%#x,%#x) ends beyond the region (%#x)", where, i, run, run+n, total)
 				return
 			}
-			if !bytes.Equal(t.Buf(), rbuf[run:run+n]) {
+			if !bytes.Equal(w.buf(t), rbuf[run:run+n]) {
 				w.fail(oBios, "%s: padding %d differs from region[%#x:%#x)", where, i, run, run+n)
 			}
 			run += n
@@ -416,8 +434,8 @@ func (w *walker) fv(v *fuefi.FirmwareVolume, data []byte) {
 		return
 	}
 	fvbuf := data[:L]
-	if !bytes.Equal(v.Buf(), fvbuf) {
-		w.fail(oVolume, "volume buffer (%d bytes) differs from data[0:%#x)", len(v.Buf()), L)
+	if !bytes.Equal(w.buf(v), fvbuf) {
+		w.fail(oVolume, "volume buffer (%d bytes) differs from data[0:%#x)", len(w.buf(v)), L)
 	}
 	// extended header: either none is reported (zero name and size, data after HeaderLen), or the reported
 	// fields are the bytes at ExtHeaderOffset (inside the volume) and the data start after it.  Which of
@@ -452,7 +470,7 @@ func (w *walker) fv(v *fuefi.FirmwareVolume, data []byte) {
 		if o+ext > L {
 			w.fail(oInside, "file %d [%#x,%#x) ends outside its volume (Length %#x): %d bytes belong to whatever follows",
 				i, o, o+ext, L, o+ext-L)
-			if o+ext <= uint64(len(data)) && bytes.Equal(f.Buf(), data[o:o+ext]) {
+			if o+ext <= uint64(len(data)) && bytes.Equal(w.buf(f), data[o:o+ext]) {
 				w.fail(oBios, "file %d of the volume holds bytes [%#x,%#x) past the volume's end %#x, which the next node accounts for again", i, L, o+ext, L)
 			}
 			return
@@ -529,8 +547,8 @@ func (w *walker) file(f *fuefi.File, ctx []byte, idx int) {
 		return
 	}
 	fbuf := ctx[:ext]
-	if !bytes.Equal(f.Buf(), fbuf) {
-		w.fail(oFile, "file %d buffer (%d bytes) differs from the volume's bytes at its offset and size (%d)", idx, len(f.Buf()), ext)
+	if !bytes.Equal(w.buf(f), fbuf) {
+		w.fail(oFile, "file %d buffer (%d bytes) differs from the volume's bytes at its offset and size (%d)", idx, len(w.buf(f)), ext)
 	}
 	if f.NVarStore != nil {
 		if ctx[18] != 0x01 || !bytes.Equal(ctx[0:16], nvarGUID) {
@@ -604,8 +622,8 @@ func (w *walker) section(s *fuefi.Section, ctx []byte, idx int, where string) ui
 		return 0
 	}
 	sbuf := ctx[:ext]
-	if !bytes.Equal(s.Buf(), sbuf) {
-		w.fail(oSection, "%s: buffer (%d bytes) differs from the parent's bytes at its offset and size (%d)", where, len(s.Buf()), ext)
+	if !bytes.Equal(w.buf(s), sbuf) {
+		w.fail(oSection, "%s: buffer (%d bytes) differs from the parent's bytes at its offset and size (%d)", where, len(w.buf(s)), ext)
 	}
 	if typ != 0x02 && s.TypeSpecific != nil {
 		w.fail(oSection, "%s: type-specific header on a section of type %#x", where, typ)
@@ -674,6 +692,7 @@ func (w *walker) guided(s *fuefi.Section, ctx []byte, hs uint64, where string) {
 			}
 			src := ctx[g.DataOffset:]
 			out, err := c.Decode(append([]byte(nil), src...))
+			out = append([]byte(nil), out...) // ours: a decoder that reuses its output buffer must not rewrite this record
 			w.decodes = append(w.decodes, decodeRec{key: keyOf(src), out: out, err: err != nil})
 			if err == nil {
 				enc, decoded = out, true
